@@ -51,7 +51,8 @@ CONTRACTS = {
         params={"key": "str"},
         returns="[str,str,str,str,str,str,str]",
         result_is="key_notes(key)",
-        ensures=[("fresh-list-not-the-memo-row", "is_fresh(result)")],
+        ensures=[("fresh-list-not-the-memo-row", "is_fresh(result)"),
+                 ("memo-table-invariant-re-established", "key_cache_ok(module_value('mingus.core.keys._key_cache'))")],
         raises={"NoteFormatError": "not is_key(key)"},
         modifies=[CACHE],
         split=KEY_SPLIT + [REJECT],
